@@ -1,36 +1,78 @@
 #!/usr/bin/env python3
 """False-alarm regression: behaviour-preserving refactors under /verif/benign must
-leave every affected check at exit 0. Usage: benign.py [PROP...]"""
+leave every affected check at exit 0.
+
+  benign.py [PROP...]        each patch against the properties named in its path (default: all patches)
+  benign.py --on PROP...     the given checks against EVERY patch (a refactor filed under one
+                             property can disturb the rules of another)
+  benign.py --all            every check against every patch: one `psv check all` per patch, the
+                             properties are run one by one only when that is not quiet
+
+Patches are applied to rsync scratch copies of /repo under /tmp (removed afterwards);
+PSV_JOBS patches are handled in parallel (default 8)."""
 import os, re, subprocess, sys, tempfile, shutil
+from concurrent.futures import ThreadPoolExecutor
 VERIF = os.path.dirname(os.path.dirname(os.path.abspath(__file__)))
 ENV = dict(os.environ, GOFLAGS="-mod=mod", GOPROXY="off", GOSUMDB="off", GOTOOLCHAIN="local", GOWORK="off")
+PSV = os.environ.get('PSV_BIN', os.path.join(VERIF, 'bin', 'psv'))
+JOBS = int(os.environ.get('PSV_JOBS', '8'))
+args = sys.argv[1:]
+ALL = args[:1] == ['--all']
+ON = args[1:] if args[:1] == ['--on'] else None
+
+
 def props_of(path):
     ids = re.findall(r'[cC](\d\d)', os.path.relpath(path, os.path.join(VERIF, 'benign')))
     return sorted({f'C{i}' for i in ids})
-bad = 0
-# `benign.py --on C07 [C09 ...]`: run the given checks against EVERY benign patch
-# (a refactor filed under one property can disturb the rules of another).
-ON = sys.argv[2:] if sys.argv[1:2] == ['--on'] else None
-PSV = os.environ.get('PSV_BIN', os.path.join(VERIF, 'bin', 'psv'))
+
+
+def psv(prop, d):
+    r = subprocess.run([PSV, 'check', prop, '--repo', d, '--no-evidence', '--verif', VERIF], capture_output=True, text=True, env=ENV)
+    return r.returncode, ' | '.join(l[:200] for l in r.stdout.splitlines() if l.startswith(('violated', 'ERROR')))
+
+
+def one(p):
+    rel = os.path.relpath(p, VERIF)
+    out, bad = [], 0
+    if ALL:
+        props = subprocess.run([PSV, 'list'], capture_output=True, text=True, env=ENV).stdout.split()
+    elif ON:
+        props = ON
+    else:
+        props = props_of(p)
+        if args:
+            if not set(props) & set(args):
+                return out, bad
+            props = [x for x in props if x in args]
+    d = tempfile.mkdtemp(prefix='psv-ben-')
+    try:
+        subprocess.check_call(['rsync', '-a', '--exclude', '.git', '/repo/', d + '/'])
+        r = subprocess.run(['patch', '-p1', '-s', '-i', p], cwd=d, capture_output=True, text=True)
+        if r.returncode != 0:
+            return [f'SKIPPED {rel} (does not apply)'], 0
+        if ALL:
+            rc, _ = psv('all', d)
+            if rc == 0:
+                return [f'QUIET   all {rel}'], 0
+        for prop in props:
+            rc, why = psv(prop, d)
+            if rc != 0:
+                bad += 1
+            if rc != 0 or not ALL:
+                out.append(('QUIET   ' if rc == 0 else 'ALARM(%d) ' % rc) + f'{prop} {rel} {why}')
+    finally:
+        shutil.rmtree(d, ignore_errors=True)
+    return out, bad
+
+
+patches = []
 for root, _, files in sorted(os.walk(os.path.join(VERIF, 'benign'))):
-    for f in sorted(files):
-        if not f.endswith('.patch'): continue
-        p = os.path.join(root, f)
-        props = ON if ON else props_of(p)
-        if not ON and sys.argv[1:] and not set(props) & set(sys.argv[1:]): continue
-        if not ON and sys.argv[1:]:
-            props = [x for x in props if x in sys.argv[1:]]
-        d = tempfile.mkdtemp(prefix='psv-ben-')
-        try:
-            subprocess.check_call(['rsync','-a','--exclude','.git','/repo/', d+'/'])
-            r = subprocess.run(['patch','-p1','-s','-i',p], cwd=d, capture_output=True, text=True)
-            if r.returncode != 0:
-                print('SKIPPED', os.path.relpath(p, VERIF), '(does not apply)'); continue
-            for prop in props:
-                r = subprocess.run([PSV,'check',prop,'--repo',d,'--no-evidence','--verif',VERIF], capture_output=True, text=True, env=ENV)
-                ok = r.returncode == 0
-                bad += 0 if ok else 1
-                print('QUIET  ' if ok else 'ALARM  ', prop, os.path.relpath(p, VERIF), '' if ok else ' | '.join(l[:200] for l in r.stdout.splitlines() if l.startswith(('violated','ERROR'))))
-        finally:
-            shutil.rmtree(d, ignore_errors=True)
-sys.exit(1 if bad else 0)
+    patches += [os.path.join(root, f) for f in sorted(files) if f.endswith('.patch')]
+total = 0
+with ThreadPoolExecutor(JOBS) as ex:
+    for out, bad in ex.map(one, patches):
+        total += bad
+        for l in out:
+            print(l, flush=True)
+print(f'{len(patches)} patches, {total} alarms')
+sys.exit(1 if total else 0)
